@@ -461,6 +461,38 @@ def run(ctx):
         ctx.check(len(fu) == 1, "R7.5", pq[0].loc(), "parse_query_params|pairing", "parse_query_params must decode the query with form_urlencoded::parse", instance="parse_query_params: form_urlencoded::parse")
     else:
         ctx.violation("R7.5", "conjure_http", "anchor|parse_query_params", "parse_query_params not found")
+    # ---------------- R7.10 the pair separator is chosen per pair: `in_path` ('?' for the first pair, '&' afterwards) is consulted
+    # inside the loop that writes the pairs, never once in front of it (every element of a list written first into the query
+    # would otherwise be led by '?': `?k=1?k=2` is one pair for the server)
+    nsel = 0
+    for b in [x for x in c.bodies if x.id.startswith(UB.rsplit("::", 1)[0] + "::") and x.kind in ("fn", "assoc_fn")]:
+        cfg_ = CFG(b)
+        sel = []
+        for bb_, blk in enumerate(b.blocks):
+            if "switch" not in blk["t"]:
+                continue
+            p_ = op_place(blk["t"]["switch"])
+            if p_ is None:
+                continue
+            names_ = {e_.get("n") for e_ in place_proj(p_) if isinstance(e_, dict)}
+            if "in_path" not in names_:
+                r_ = dt.resolve_copy(b, blk["t"]["switch"])
+                if r_[0] == "place" and not isinstance(r_[1], int):
+                    names_ = {e_.get("n") for e_ in r_[1]["p"] if isinstance(e_, dict)}
+            if "in_path" in names_:
+                sel.append(bb_)
+        if not sel:
+            continue
+        nsel += len(sel)
+        writes_in_loop = [bb_ for bb_, t_ in b.calls() if t_["call"]["name"] in ("extend_from_slice", "put", "put_slice", "put_u8", "push") and cfg_.in_loop(bb_)
+                          and ("BytesMut" in t_["call"]["def"] or "BufMut" in t_["call"]["def"])]
+        for s_ in sel:
+            outside = [w_ for w_ in writes_in_loop if not cfg_.in_loop(s_) and cfg_.dominates(s_, w_)]
+            ctx.check(not outside, "R7.10", b.loc(b.blocks[s_]["t"].get("ln")), f"{b.name}|separator-per-pair",
+                      f"{b.name}: the '?' / '&' separator is selected from `in_path` once, in front of a loop that writes to the buffer (line {b.blocks[outside[0]]['t'].get('ln') if outside else '?'}): every pair written by the loop gets the same separator",
+                      instance=f"{b.name}: separator selected where the pair is written")
+    if not nsel:
+        ctx.note("R7.10: no selection on a field named `in_path` found in the URI builder (the path / query phase is kept differently); the separator rule gives no verdict — the call order is decided by R7.4")
     # ---------------- R7.6 panic inventory
     for name, b in sorted(methods.items()):
         nd = len(c06.debug_only_blocks(b))
